@@ -129,9 +129,10 @@ def _bits_to_int(v, ty):
 
 
 class Interp:
-    def __init__(self, F, call_handlers=None, max_steps=4000, max_depth=4, default_sym=False):
+    def __init__(self, F, call_handlers=None, max_steps=4000, max_depth=4, default_sym=False, opaque_calls=False):
         self.F = F
         self.default_sym = default_sym
+        self.opaque_calls = opaque_calls
         self.handlers = call_handlers or []
         self.max_steps = max_steps
         self.max_depth = max_depth
@@ -416,6 +417,8 @@ class Interp:
         target = self.F.bodies.get(name)
         if target is not None and depth < self.max_depth:
             return self.run(target, args, depth + 1)
+        if self.opaque_calls:
+            return Sym("call:" + name.split("::")[-1])
         raise Unsupported("call to %s" % name)
 
 
